@@ -299,5 +299,34 @@ func (e *engine) runCodecChunk(chunk, nSpecs int) {
 			}
 		}
 	}
+	// Tx64.UnmarshalBinary: the other exported decoder of the reference code
+	for i := 0; i < nSpecs/8; i++ {
+		n := []int{0, 1, 7, 8, 8, 8, 9, 16}[rng.IntN(8)]
+		b := make([]byte, n)
+		fill(rng, b)
+		evals++
+		e.r.Count("codec.tx64_cases", 1)
+		e.r.Distinct(fmt.Sprintf("codec|Tx64|len=%d", n))
+		func() {
+			defer func() {
+				if p := recover(); p != nil {
+					e.viol("tx64-decode-panic", fmt.Sprintf("Tx64.UnmarshalBinary panics: %v", p), map[string]any{"input_hex": hx(b)})
+				}
+			}()
+			var t consensus.Tx64
+			err := t.UnmarshalBinary(b)
+			if n != 8 {
+				if err == nil {
+					e.viol("tx64-accepts-wrong-length", "Tx64.UnmarshalBinary accepts input that is not 8 bytes", map[string]any{"input_hex": hx(b)})
+				}
+				return
+			}
+			out, _ := t.MarshalBinary()
+			th := t.Hash()
+			if err != nil || !bytes.Equal(out, b) || !bytes.Equal(th[:8], b) {
+				e.viol("tx64-roundtrip", fmt.Sprintf("Tx64 does not round-trip: err=%v", err), map[string]any{"input_hex": hx(b), "output_hex": hx(out)})
+			}
+		}()
+	}
 	e.r.Eval(evals)
 }
